@@ -14,9 +14,12 @@ Stack(ts) == ts
 Slice(v, i) == v[i + 1]
 AddElement(v, i, e) == [v EXCEPT ![i + 1] = e]
 
-(* elements of two leaves are equal: same dtype class -> exact encodings coincide; different classes (int vs float)
+(* elements of two leaves are equal: two float leaves (of any widths) -> the values, widened exactly to float64, coincide
+   (w64: the bit patterns); otherwise the same dtype class -> exact encodings coincide; different classes (int vs float)
    -> the numeric values coincide (compared in exact quarters; the harness only builds such pairs from quarters) *)
-SameElements(x, y) == IF x.cls = y.cls THEN x.data = y.data ELSE x.exact4 /\ y.exact4 /\ x.num4 = y.num4
+SameElements(x, y) ==
+  IF x.cls = "f" /\ y.cls = "f" THEN x.w64 = y.w64
+  ELSE IF x.cls = y.cls THEN x.data = y.data ELSE x.exact4 /\ y.exact4 /\ x.num4 = y.num4
 IsEqual(a, b) == /\ Len(a) = Len(b)
                  /\ \A j \in 1..Len(a) : a[j].shape = b[j].shape /\ SameElements(a[j], b[j])
 
